@@ -14,6 +14,7 @@ fn main() {
         Some("probe") => probe::main(),
         Some("demo") => demo::main(&args[2]),
         Some("mt") => mt::main(&args[2..]),
+        Some("mt-burst") => mt::burst(&args[2..]),
         _ => {
             eprintln!("usage: h_poolmt probe | demo <out> | mt <pool> <threads> <ops> <slabcap> <keep|poolgone> <out>");
             std::process::exit(2);
